@@ -128,8 +128,33 @@ STACK_SITES = [
 
 @rule('PATH-STACK', 'D', 'context stacks (repeaters, snippet cycle guard, ancestors) are pushed and popped in pairs on every path')
 def path_stack(p, res):
+    def by_role(fq, lst):
+        """the reviewed function is gone (a closure turned into a method / a module-level function): the one function of the
+        same module that pushes and pops a stack whose last name component is the reviewed one takes its place"""
+        mod = fq.rsplit('.', 1)[0]
+        while mod and ('emmet.' + mod) not in p.modules:
+            mod = mod.rsplit('.', 1)[0] if '.' in mod else ''
+        last = lst.split('.')[-1]
+        cands = []
+        for g in p.funcs.values():
+            if not g.module.name == 'emmet.' + mod:
+                continue
+            pushed = {src_of(n.func.value) for n in g.body_nodes() if isinstance(n, ast.Call) and isinstance(n.func, ast.Attribute) and n.func.attr == 'append'
+                      and src_of(n.func.value).split('.')[-1] == last}
+            popped = {src_of(n.func.value) for n in g.body_nodes() if isinstance(n, ast.Call) and isinstance(n.func, ast.Attribute) and n.func.attr == 'pop'
+                      and src_of(n.func.value).split('.')[-1] == last}
+            for x in sorted(pushed & popped):
+                cands.append((g, x))
+        return cands[0] if len(cands) == 1 else None
     for fq, lst in STACK_SITES:
-        f = p.func(fq)
+        try:
+            f = p.func(fq)
+        except AnalysisError:
+            alt = by_role(fq, lst)
+            if alt is None:
+                raise
+            f, lst = alt
+            res.notes.append('%s is gone; %s pushes and pops %s and is analysed in its place' % (fq, f.short, lst))
         c = StackClient(p, f, lst)
         fl = explore(p, f, c)
         if c.n_events < 2:
@@ -142,7 +167,9 @@ def path_stack(p, res):
     rs = p.func('markup.snippets.resolve_snippets')
     r = rs.nested.get('resolve')
     if r is None:
-        raise AnalysisError('PATH-STACK: resolve_snippets.resolve vanished')
+        res.undecided('resolve_snippets: cycle-guard stack', 'resolve() is no longer a closure of resolve_snippets: where the stack is created is not decided')
+        res.require_floor(8)
+        return
     inits = [n for n in rs.node.body if isinstance(n, ast.Assign) and src_of(n.targets[0]) == 'stack']
     if len(inits) == 1 and src_of(inits[0].value) in ('[]', 'list()'):
         res.ok('stack is a fresh list per resolve_snippets call')
